@@ -92,6 +92,77 @@ def lc_roles(f) -> Dict[str, str]:
     return roles
 
 
+def _sets_by_cases(idx: Index, rep: Report, rule2: str) -> Set[str]:
+    """walk_minus and the default handler (sums and every other operator) are pure functions of the triples computed
+    for the operands — (linear?, fluents the value grows in, fluents it shrinks in) — and touch the sets only through
+    union: what they answer is decided by interpreting their syntax tree on every combination of
+    {linear, non-linear} x {empty, one distinct token} for each set of each operand. Expected: linear iff every operand
+    is; for a linear answer, a sum grows in what its operands grow in and shrinks in what they shrink in, a difference
+    grows in what the minuend grows in and the subtrahend shrinks in (and symmetrically); the operands' own sets are
+    left untouched (they are memoised results of the children). Returns the handlers decided (not those whose code
+    leaves the interpreter's fragment)."""
+    import itertools
+
+    from .extra3 import _OrderInterp, _Raised, _Returned, _Stub, _Yielded
+
+    decided: Set[str] = set()
+    for name, arities in (("walk_minus", (2,)), ("walk_default", (0, 1, 2, 3))):
+        f = _lc(idx, name)
+        params = [p for p in f.params() if p not in ("self", "cls")]
+        if len(params) != 2:
+            continue
+        interp = _OrderInterp(f.node)
+        interp.check_asserts = True
+        wrong = None
+        cases = 0
+        supported = True
+        for n in arities:
+            for bits in itertools.product((False, True), repeat=3 * n):
+                triples = [(bits[3 * i], {f"p{i}"} if bits[3 * i + 1] else set(), {f"n{i}"} if bits[3 * i + 2] else set()) for i in range(n)]
+                frozen = [(b, set(p), set(q)) for b, p, q in triples]
+                env = {"self": _Stub("self"), params[0]: _Stub("expression"), params[1]: list(triples)}
+                try:
+                    interp.run(env)
+                    got = None
+                except _Returned as r:
+                    got = r.value
+                except _Yielded:
+                    got = None
+                except _Raised as ex:
+                    got = f"raises {ex}"
+                except _OrderInterp.Unsupported:
+                    supported = False
+                    break
+                except Exception:
+                    supported = False
+                    break
+                cases += 1
+                lin = all(b for b, _, _ in frozen)
+                if name == "walk_minus":
+                    pos, neg = frozen[0][1] | frozen[1][2], frozen[0][2] | frozen[1][1]
+                else:
+                    pos = set().union(*[p for _, p, _ in frozen]) if frozen else set()
+                    neg = set().union(*[q for _, _, q in frozen]) if frozen else set()
+                good = isinstance(got, tuple) and len(got) == 3 and bool(got[0]) == lin and (not lin or (got[1] == pos and got[2] == neg))
+                if name == "walk_minus" and good and not lin:
+                    good = got[1] == set() and got[2] == set()
+                untouched = [(b, p, q) for b, p, q in triples] == frozen
+                if wrong is None and not (good and untouched):
+                    wrong = (frozen, got, (lin, pos, neg), untouched)
+            if not supported:
+                break
+        if not supported:
+            continue
+        decided.add(name)
+        detail = ""
+        if wrong is not None:
+            frozen, got, want, untouched = wrong
+            detail = f"for the operand results {frozen} the handler answers {got}, expected {want}" + ("" if untouched else "; the operands' own (memoised) sets are modified") + (": the polarity of the subtrahend's fluents is not flipped — x - y is reported as growing in y" if name == "walk_minus" else "")
+        what = "minuend keeps, subtrahend swaps the fluent sets; a non-linear verdict carries no sets" if name == "walk_minus" else "linear iff every operand is, and the fluent sets are the unions of the operands' sets"
+        rep.check(wrong is None, rule2, f"{name}: {what}", f.loc(), construct=f"{cases} operand-result combinations interpreted", detail=detail, function=f.qualname, strict=True)
+    return decided
+
+
 def _lc(idx: Index, name: str):
     from ..roles import with_roles
 
@@ -197,7 +268,10 @@ def run(idx: Index, rep: Report, tier: str) -> None:
             if isinstance(x, ast.AugAssign) and isinstance(x.op, (ast.Sub, ast.BitAnd, ast.BitXor)) and "fluents" in norm(x.target):
                 removal = removal or (hm, x)
     rep.check(removal is None, rule2, "LinearChecker: the sets of fluents an expression grows / shrinks in only ever grow", (removal[0].loc(removal[1]) if removal else lc_cls.loc()), construct=(norm(removal[1])[:70] if removal else "no set difference / removal in the handlers"), detail="" if removal is None else "a fluent is taken out of a monotonicity set: when the same fluent occurs in both operands (2*x - x) its contribution from one side is lost and the expression is reported monotone in the wrong direction", function=(removal[0].qualname if removal else lc_cls.qualname))
-    if ok:
+    decided = _sets_by_cases(idx, rep, rule2)
+    if "walk_minus" in decided:
+        pass
+    elif ok:
         rep.ok(rule2, "walk_minus: minuend keeps, subtrahend swaps the fluent sets", wm.loc(), construct="args[0]: pos|=spf, neg|=snf; args[1]: neg|=spf, pos|=snf", function=wm.qualname)
     else:
         rep.inconclusive(rule2, "walk_minus: the swap of the subtrahend's sets is not in the recognised form", wm.loc(), construct="args[0]: pos|=spf, neg|=snf; args[1]: neg|=spf, pos|=snf", function=wm.qualname)
